@@ -43,7 +43,9 @@ UNIT = Unit(
                         assert(red.0 as int * f0.d == f0.n * (red.1 as int));
                         lemma_floor_frac_eq(x as int, red.0 as int, red.1 as int, f0.n, f0.d); }""")]),
         Fn(M, "request_pool_key", home="C15", implicit_props=("C09", "C15"),
-           ensures=[C("canonical", "res == spec_req_key(data@)", "C15", "C01", "C16")]),
+           ensures=[C("canonical", "res == spec_req_key(data@)", "C15", "C01", "C16"),
+                    C("real", "res is Some ==> pk_canonical(res->Some_0) && res->Some_0.left != Denom::NewCustom && res->Some_0.right != Denom::NewCustom", "C15", "C01",
+                      note="a pool is named only by the canonical spelling of a pair of REAL denominations: never the placeholder NewCustom, under which every transaction declares its own new token")]),
         Fn(M, "get_swap_transactions", home="C15", implicit_props=("C09", "C15"),
            requires=[C("wf", "state.coins.wf()")],
            ensures=[C("selected", "selected(state.transactions@, res@, swap_pred(*state))", "C15", "C01", "C16")],
